@@ -31,8 +31,9 @@ theorem cond_doc (c : Ctx) (gs : Fields)
   have h1 : classify "$cond" = .conditional := by decide
   have h2 : mode "$cond" (.doc gs) = .shaped := by
     simp [mode, dateOps, datePartOps, wholeOps, unaryArithOps, groupingOps, hasTzKeys]
-  simp only [eval, List.length_singleton, Nat.lt_irrefl, decide_false, Bool.false_and,
-    Bool.false_eq_true, if_false, evalDoc, h1, h2, evalOp, h, hx, Bool.not_true]
+  rw [eval_shaped c "$cond" _ (by decide) (by decide) (by decide) (by decide)
+    (Or.inl (by decide)) h2]
+  simp only [evalOp, h, hx, Bool.not_true]
   simp [toBoolOpt_eq]
   rfl
 
@@ -44,7 +45,9 @@ theorem cond_doc_lacking (c : Ctx) (gs : Fields)
   have h1 : classify "$cond" = .conditional := by decide
   have h2 : mode "$cond" (.doc gs) = .shaped := by
     simp [mode, dateOps, datePartOps, wholeOps, unaryArithOps, groupingOps, hasTzKeys]
-  simp [eval, evalDoc, h1, h2, evalOp, h]
+  rw [eval_shaped c "$cond" _ (by decide) (by decide) (by decide) (by decide)
+    (Or.inl (by decide)) h2]
+  simp [evalOp, h]
 
 /-! ### `$ifNull` -/
 
@@ -58,7 +61,9 @@ theorem ifNull_list (c : Ctx) (xs : List Val) (hlen : 2 ≤ xs.length) :
     simp [arityErr, binaryArithOps, comparisonOps, this]
   have h4 : listOps.contains "$ifNull" = false := by decide
   have h5 : ¬ ("$ifNull" ∈ listOps) := by decide
-  simp [eval, evalDoc, h1, h2, evalOp, h3, h4, h5]
+  rw [eval_shaped c "$ifNull" _ (by decide) (by decide) (by decide) (by decide)
+    (Or.inl (by decide)) h2]
+  simp [evalOp, h3, h4, h5]
 
 /-- fewer than two operands are rejected -/
 theorem ifNull_short (c : Ctx) (xs : List Val) (hlen : xs.length < 2) :
@@ -68,7 +73,9 @@ theorem ifNull_short (c : Ctx) (xs : List Val) (hlen : xs.length < 2) :
     simp [mode, dateOps, datePartOps, wholeOps, unaryArithOps, groupingOps]
   have h3 : arityErr "$ifNull" xs.length = some .opFail := by
     simp [arityErr, binaryArithOps, comparisonOps, hlen]
-  simp [eval, evalDoc, h1, h2, evalOp, h3]
+  rw [eval_shaped c "$ifNull" _ (by decide) (by decide) (by decide) (by decide)
+    (Or.inl (by decide)) h2]
+  simp [evalOp, h3]
 
 /-- an operand that is neither null nor missing is the result; the later ones are not parsed -/
 theorem ifNull_first (c : Ctx) (x y : Val) (r : List Val) (v : Val)
@@ -117,7 +124,9 @@ theorem switch_eq (c : Ctx) (gs : Fields) (bs : List Val)
   have h2 : mode "$switch" (.doc gs) = .shaped := by
     simp [mode, dateOps, datePartOps, wholeOps, unaryArithOps, groupingOps, hasTzKeys]
   have hne' : bs.isEmpty = false := by cases bs <;> simp_all
-  simp only [eval, evalDoc, h1, h2, evalOp, hb, Option.getD, hne', hok]
+  rw [eval_shaped c "$switch" _ (by decide) (by decide) (by decide) (by decide)
+    (Or.inl (by decide)) h2]
+  simp only [evalOp, hb, Option.getD, hne', hok]
   simp
   rfl
 
